@@ -239,6 +239,15 @@ def analyse(project: Project, fi: FunctionInfo) -> List[dict]:
         asg_node = cfg.node_of(asg)
         loops_of = lambda st: _enclosing_loops(fn, st)
         for i, (u1, s1, n1, k1) in enumerate(info):
+            if k1 == "partial" and isinstance(s1, (ast.For, ast.AsyncFor)) and s1.iter is u1:
+                # a scan `for x in g: ... break` nested in a loop that does not make g anew: a round that stopped early leaves the
+                # rest, and the next round does not scan from the start but from behind the item it stopped at (or gets nothing)
+                again = [lp for lp in _enclosing_loops(fn, s1) if lp not in _enclosing_loops(fn, asg) and lp is not s1]
+                if again:
+                    out.append(dict(name=g, first=u1, second=u1, what=what, definite=True, kind=(k1, k1), assign=asg,
+                                    why=f"`{g}` ({what}, made once at line {asg.lineno}) is scanned at line {u1.lineno} by a loop that may "
+                                        f"stop early, inside a loop that does not make it anew: every round after the first continues "
+                                        f"behind the item the previous round stopped at instead of scanning all items"))
             if k1 in ("none", "partial"):
                 continue
             for j, (u2, s2, n2, k2) in enumerate(info):
@@ -341,8 +350,9 @@ def positive_examples() -> dict:
     for q, fi in pp.functions.items():
         if q.startswith("pospkg.iterators."):
             got[fi.name] = [h["definite"] for h in analyse(pp, fi)]
-    want_definite = {"consumed_twice", "consumed_twice_in_loop"}
-    want_silent = {"materialised_first", "exclusive_branches", "stepwise_iterator", "peek_then_walk", "_pairs", "_table", "_total"}
+    want_definite = {"consumed_twice", "consumed_twice_in_loop", "scan_resumed_in_outer_loop"}
+    want_silent = {"materialised_first", "exclusive_branches", "stepwise_iterator", "peek_then_walk", "_pairs", "_table", "_total",
+                   "scan_restarted_in_outer_loop"}
     for nme in want_definite:
         if not any(got.get(nme, [])):
             raise AnalysisError(f"IT-ONCE positive example `{nme}` was not found (the rule is not working)")
